@@ -441,10 +441,10 @@ from gambit.seq import SequenceFile
 from gambit.kmers import KmerSpec
 from concurrent.futures import ProcessPoolExecutor, ThreadPoolExecutor
 spec = json.loads(sys.argv[1])
-os.chdir(spec['second'])
 ks = KmerSpec(spec['k'], spec['prefix'])
 out = {}
-for mode in spec['modes']:
+
+def one(mode):
 	files = [SequenceFile(n, 'fasta', 'auto') for n in spec['names']]
 	try:
 		if mode == 'process-executor':
@@ -455,9 +455,17 @@ for mode in spec['modes']:
 				res = gc.calc_file_signatures(ks, files, concurrency='threads', executor=ex)
 		else:
 			res = gc.calc_file_signatures(ks, files, concurrency=None if mode == 'none' else mode, max_workers=spec['workers'])
-		out[mode] = dict(sigs=[[int(x) for x in s_] for s_ in res])
+		return dict(sigs=[[int(x) for x in s_] for s_ in res])
 	except Exception as e:
-		out[mode] = dict(error=f'{type(e).__name__}: {e}')
+		return dict(error=f'{type(e).__name__}: {e}')
+
+os.chdir(spec['second'])
+for mode in spec['modes']:
+	out[mode] = one(mode)
+if spec.get('third'):
+	os.chdir(spec['third'])          # and on to the next run directory: the same relative names, other genomes
+	for mode in spec['modes']:
+		out[mode + '@third'] = one(mode)
 print('RESULT ' + json.dumps(out))
 """
 
@@ -482,16 +490,30 @@ def run_chdir(sh, ctx):
 					continue                # odd runs: some names exist only in the second directory
 				(base / nm).parent.mkdir(parents=True, exist_ok=True)
 				while True:
-					contigs = [bytes(rng.choice(b'ACGT') for _ in range(rng.randint(200, 500)))]
+					contigs = [soft_mask(bytes(rng.choice(b'ACGT') for _ in range(rng.randint(200, 500)))) for _ in range(rng.randint(2, 4) if sh.get('layout') else 1)]
 					e = S.signature(spec[0], spec[1], contigs)
 					if e and e not in exps:
 						break
-				write_fasta(base / nm, contigs)
+				if sh.get('layout'):
+					write_fasta(base / nm, contigs, width=rng.choice([0, 60, 80]), eol=rng.choice([b'\n', b'\r\n']), gz=rng.choice([False, True, 'multi']))
+				else:
+					write_fasta(base / nm, contigs)
 				if keep:
 					exps.append(e)
 			names.append(nm)
 		modes = ['none', 'threads', 'processes', 'process-executor', 'thread-executor']
-		arg = dict(second=str(second), k=spec[0], prefix=spec[1].decode(), names=names, modes=modes, workers=rng.choice([1, 2, 4, None]))
+		third = ctx.workdir / f'c{r}_third'
+		exps3 = []
+		for nm in names:
+			(third / nm).parent.mkdir(parents=True, exist_ok=True)
+			while True:
+				contigs = [soft_mask(bytes(rng.choice(b'ACGT') for _ in range(rng.randint(200, 500)))) for _ in range(rng.randint(2, 4) if sh.get('layout') else 1)]
+				e = S.signature(spec[0], spec[1], contigs)
+				if e and e not in exps and e not in exps3:
+					break
+			write_fasta(third / nm, contigs, gz=rng.choice([False, True]) if sh.get('layout') else False)
+			exps3.append(e)
+		arg = dict(second=str(second), third=str(third), k=spec[0], prefix=spec[1].decode(), names=names, modes=modes, workers=rng.choice([1, 2, 4, None]))
 		try:
 			pr = subprocess.run(['/venv/bin/python', '-c', CHDIR_CHILD, json.dumps(arg)], cwd=str(first), env=core.worker_env(), capture_output=True, timeout=900)
 		except subprocess.TimeoutExpired:
@@ -502,7 +524,7 @@ def run_chdir(sh, ctx):
 			ctx.inconc(f'relative-paths child process gave no result: rc={pr.returncode} {pr.stderr.decode("utf8", "replace")[-300:]}')
 			continue
 		out = json.loads(line[-1][7:])
-		for mode in modes:
+		for mode in modes + [m + '@third' for m in modes]:
 			w = dict(n=n, mode=mode, names=names, started_in='a directory holding other files under the same relative names' if not r % 2 else 'a directory holding other files under SOME of the names',
 			         kmerspec=f'{spec[0]}/{spec[1].decode()}', max_workers=arg['workers'])
 			ctx.case(('chdir', r, mode), nontrivial=True, sample=w if r == 0 and mode == 'processes' else None)
@@ -511,7 +533,7 @@ def run_chdir(sh, ctx):
 			if 'error' in o:
 				ctx.violation('raises-on-good-files', f'{mode}: relative paths after os.chdir: raised {o["error"]}', w)
 				continue
-			check_result(ctx, [np.array(x, dtype='u8') for x in o['sigs']], exps, w, f'relative paths after chdir, {mode}')
+			check_result(ctx, [np.array(x, dtype='u8') for x in o['sigs']], exps3 if mode.endswith('@third') else exps, w, f'relative paths after chdir, {mode}')
 
 
 # ---- failures ---------------------------------------------------------------------------------------
@@ -673,7 +695,7 @@ def run_shard(sh, ctx):
 def finalize(merged, tier, seed, inconclusive):
 	c = merged['counters']
 	for n in ['forced_runs', 'orders_delivered_exactly_as_chosen', 'non_identity_orders_delivered', 'pool_runs:none', 'pool_runs:threads', 'pool_runs:processes',
-	          'failures_propagated', 'caller_executor_still_usable', 'failure_runs:processes', 'failure_runs:perm', 'yield_injections', 'successful_calls_after_a_failed_call', 'runs_with_repeated_files', 'runs_with_recordless_files', 'runs_with_dotdot_through_symlinked_directory', 'relative_paths_after_chdir:processes', 'relative_paths_after_chdir:process-executor']:
+	          'failures_propagated', 'caller_executor_still_usable', 'failure_runs:processes', 'failure_runs:perm', 'yield_injections', 'successful_calls_after_a_failed_call', 'runs_with_repeated_files', 'runs_with_recordless_files', 'runs_with_dotdot_through_symlinked_directory', 'relative_paths_after_chdir:processes', 'relative_paths_after_chdir:process-executor', 'relative_paths_after_chdir:processes@third']:
 		if c.get(n, 0) == 0:
 			inconclusive.append(f'class never observed: {n}')
 	if c.get('pool_orders_observed', 0) and c.get('pool_orders_not_identity', 0) == 0:
